@@ -5,7 +5,8 @@
    run_info.json last, DictArray.load keyed on the file), OldCode what the code did before. *)
 From Verif Require Import Base.Prelude Base.StrUtil Base.Index Base.NdArr Base.PyRange
   Model.MapSpec Model.MapRun Model.SymBody.
-From Verif Require Import Proofs.MapResumeFacts Proofs.MapValuesFacts Proofs.CrashFSFacts.
+From Verif Require Import Model.MapDenote Proofs.MapRunFacts.
+From Verif Require Import Proofs.MapResumeFacts Proofs.MapValuesFacts Proofs.MapResumeDenote Proofs.CrashFSFacts.
 From Verif Require Import Model.MapResume Model.CrashFS Model.CrashFSRef.
 
 (* ---------------------------------------------------------------- no_partial_returned *)
@@ -115,8 +116,26 @@ Example ex_ref3_runs : exists psF psR,
   /\ p_store psF = ref3_full /\ calls_of (p_tr psR) = [(s "f", Some 1); (s "m", Some 1)].
 Proof. do 2 eexists. split; [vm_compute; reflexivity|]. split; [vm_compute; reflexivity|]. split; vm_compute; reflexivity. Qed.
 
-(* Not proved in general: that the resumed run completes (it is proved to call only missing elements and, when it
-   completes, to end with F); that the Result.output arrays (not only the store) coincide. *)
+(* Completion and Result.output are proved below (C05_resume_completes_with_uninterrupted_result). *)
+
+(* resume_eq_uninterrupted, general, WITH completion and Result.output (C01 hypotheses + order conditions):
+   a resumed run (cleanup=False, no request) on any store that holds, where it holds something, denoted values,
+   completes, returns the denoted arrays and ends with the full denoted store.  By C06_map_run_sel_is_map_run the
+   denoted arrays are exactly what the uninterrupted run returns and stores. *)
+Theorem C05_resume_completes_with_uninterrupted_result : forall body user p inputs D rs,
+  body_arity body ->
+  request_ok p inputs = true -> denote_run body p inputs user = Ok D -> pipeline_order_ok p = true ->
+  (forall g, In g p -> fsub body p inputs D rs g) ->
+  exists ps, map_run_sel body p inputs user None rs = ROk ps
+    /\ (forall f, In f p -> ffull body p inputs D (p_store ps) f)
+    /\ (forall f o, In f p -> In o (fouts f) -> dict_get (p_out ps) o = dict_get (d_out D) o).
+Proof. exact full_run_on_substore_denotes. Qed.
+Print Assumptions C05_resume_completes_with_uninterrupted_result.
+
+Example ex_resume_hyps : forall r, In r ref_family ->
+  request_ok (r_funcs r) (r_inputs r) = true /\ is_ok (denote_run sym_body (r_funcs r) (r_inputs r) (r_user r)) = true
+  /\ pipeline_order_ok (r_funcs r) = true.
+Proof. intros r [<-|[<-|[<-|[]]]]; (split; [vm_compute; reflexivity|]); split; vm_compute; reflexivity. Qed.
 
 (* ---------------------------------------------------------------- resume_refuted_inplace *)
 (* What the code did before the repair (in-place writes, run_info.json first, DictArray.load keyed on the folder):
